@@ -473,7 +473,13 @@ impl Ranges {
                     return value.populate(args, foreign_key, locale, key_path);
                 }
             }
-            unreachable!("plurals validity should already have been checked.");
+            // a range without fallback can fail to match a literal count
+            Err(Error::CountArgNoMatch {
+                locale: locale.clone(),
+                key_path: key_path.to_owned(),
+                foreign_key: foreign_key.to_owned(),
+            }
+            .into())
         }
         fn try_from<T, U: TryFrom<T, Error = TryFromIntError>>(
             count: T,
